@@ -57,6 +57,60 @@ pub proof fn record_alloc(tracked w: &mut World, p: Seq<char>, first: int)
         final(w).fs == old(w).fs, final(w).log == old(w).log, same_but_fs(World { alloc: final(w).alloc, ..*old(w) }, *final(w)),
 { admit(); }
 
+// std::env::temp_dir() / PathBuf::push / uuid::Uuid::new_v4 as used by AsyncTempFile::new
+#[verifier::external_body]
+pub struct TempPath { _p: () }
+pub uninterp spec fn temp_dir_path() -> Seq<char>;
+pub uninterp spec fn is_uuid(s: Seq<char>) -> bool;      // text of a freshly generated v4 UUID
+pub open spec fn temp_prefix() -> Seq<char> { seq!['b', 'r', 'e', 'a', 'd', 'l', 'o', 'g', '-'] }
+pub open spec fn temp_suffix() -> Seq<char> { seq!['.', 't', 'm', 'p'] }
+// names of the form <temp dir>/breadlog-<uuid v4>.tmp are the temporary files of a run: fresh (uuid), no project file
+pub proof fn axiom_temp_names(w: World)
+    ensures forall|u: Seq<char>| #[trigger] is_uuid(u) ==>
+        is_temp(path_join(temp_dir_path(), temp_prefix() + u + temp_suffix()))
+        && !w.fs.dom().contains(path_join(temp_dir_path(), temp_prefix() + u + temp_suffix()))
+        && !w.protected.contains(path_join(temp_dir_path(), temp_prefix() + u + temp_suffix()))
+{ admit(); }
+impl TempPath {
+    pub uninterp spec fn view(&self) -> Seq<char>;
+    #[verifier::external_body]
+    pub fn push(&mut self, s: String) ensures final(self).view() == path_join(old(self).view(), s@) { unimplemented!() }
+    #[verifier::external_body]
+    pub fn to_str(&self) -> (r: Option<&str>) ensures r.is_some() ==> r.unwrap()@ == self.view() { unimplemented!() }
+}
+// whether unlink(2) on this path succeeds in this run's environment
+pub uninterp spec fn unlinkable(p: Seq<char>) -> bool;
+pub mod tempshim {
+    use vstd::prelude::*;
+    use super::*;
+    // std::fs::remove_file as used by Drop for AsyncTempFile
+    #[verifier::external_body]
+    pub fn remove_file(path: &String, Tracked(w): Tracked<&mut World>) -> (r: Result<(), IoError>)
+        requires
+            !old(w).check_mode, // [C04.nowrite]
+            atomic_inv(*old(w)), // [C07.frame]
+            is_temp(path@), // [C07.nonatomic]
+        ensures
+            same_but_fs(*old(w), *final(w)), final(w).log == old(w).log,
+            r.is_ok() == unlinkable(path@),
+            r.is_ok() ==> final(w).fs == old(w).fs.remove(path@),
+            r.is_err() ==> final(w).fs == old(w).fs,
+    { unimplemented!() }
+    #[verifier::external_body]
+    pub fn temp_dir() -> (r: TempPath) ensures r.view() == temp_dir_path() { unimplemented!() }
+    pub struct Uuid { pub _p: () }
+    impl Uuid {
+        #[verifier::external_body]
+        pub fn new_v4() -> (r: Uuid) { unimplemented!() }
+    }
+    // `{}` of a Uuid
+    #[verifier::external_body]
+    pub fn uuid_string(u: Uuid) -> (r: String) ensures is_uuid(r@) { unimplemented!() }
+    // `{}` of an error value: some text
+    #[verifier::external_body]
+    pub fn display_string<T>(e: T) -> (r: String) { unimplemented!() }
+}
+
 #[derive(Debug)]
 pub struct IoError { pub _p: () }
 // std::io::ErrorKind as far as error handlers may inspect it (R13: std::io:: re-rooted here); the kind is nondeterministic
@@ -113,6 +167,21 @@ pub mod async_std {
             { unimplemented!() }
         }
 
+        impl File {
+            // File::create: creates or TRUNCATES the file at `path` (a non-atomic writer: never on an in-scope source file)
+            #[verifier::external_body]
+            pub async fn create(path: super::super::TempPath, Tracked(w): Tracked<&mut World>) -> (r: Result<File, IoError>)
+                requires
+                    !old(w).check_mode, // [C04.nowrite]
+                    atomic_inv(*old(w)), // [C07.frame]
+                    is_temp(path.view()) && !old(w).protected.contains(path.view()), // [C07.nonatomic]
+                ensures
+                    same_but_fs(*old(w), *final(w)),
+                    r.is_err() ==> final(w).fs == old(w).fs,
+                    r.is_ok() ==> final(w).fs == old(w).fs.insert(path.view(), Seq::empty()) && r.unwrap().path() == path.view()
+                        && r.unwrap().accepted() == Seq::<u8>::empty(),
+            { unimplemented!() }
+        }
         impl File {
             // fsync after draining the write cache: same contract as flush for the visible content
             #[verifier::external_body]
